@@ -85,7 +85,7 @@ RandCases(tp) ==
     [t \in 1 .. NRand |->
        LET a == H(t * 7 + Seed * 977) b == H(a + 1) c == H(b + 1)
            n == (a % 3) + 1
-           kind(x) == IF x % 4 = 0 THEN K[(x \div 4) % 9 + 1] ELSE "rR"
+           kind(x) == IF x % 4 = 0 THEN K[(((x \div 4) % 9)) + 1] ELSE "rR"
        IN  [RunCase(tp, [i \in 1 .. n |-> kind(H(a + i * 19))], Pick(HookSets, b) , Pick(<<"none", "none", "during", "race">>, c), a)
               EXCEPT !.jit = 1]]
 
